@@ -2027,7 +2027,7 @@ impl JsObject {
         self.properties.get(key).cloned()
     }
 
-    /// Store engine bookkeeping (`__super__`, `__super_target__`) on an object: a property
+    /// Store engine bookkeeping (`__super__`, `__super_target__`, `__ns_exports__`) on an object: a property
     /// that enumeration, Object.keys and JSON never show
     pub fn set_internal_slot(&mut self, key: PropertyKey, value: JsValue) {
         self.properties
